@@ -23,7 +23,7 @@ def run(ctx):
     obs = [
         Ob('text_label', 'ob_text_label', 'a: str, mid: int, b: str, as_bytes: bool',
            pre=['0 <= mid <= 6', 'len(a) <= %d' % LA, 'len(b) <= %d' % LB, 'all(c in ALPHA for c in a)', 'all(c in ALPHA for c in b)'],
-           cells=cells, timeout=tmo, twin_fn='tw_text_label', twin_pre=['mid == 3', 'len(a) == 0', 'len(b) == 1', 'as_bytes == False'],
+           cells=cells, timeout=max(tmo, 160), twin_fn='tw_text_label', twin_pre=['mid == 3', 'len(a) == 0', 'len(b) == 1', 'as_bytes == False'],
            confirm='confirm_text_label',
            desc='render_basic(text): status 200, body unchanged, label in the three-valued oracle of the statement; '
                 'text = a + MID + b with MID in ("", "<html", "<htm", "{", "[", "}", "]") and symbolic a, b'),
